@@ -174,11 +174,59 @@ func genWildDoc(t *rapid.T, label string) wildDoc {
 			n.Id = rapid.SampledFrom([]string{"a", "b", "c", "d"}).Draw(t, label+".id")
 		}
 	}
+	if rapid.Bool().Draw(t, label+".serializable") {
+		// half of the documents are made acceptable to every serializer (one existing root, closed edges, complete
+		// document types) so that the determinism clause is exercised on successful writes, attributes stay wild
+		if doc.Metadata == nil {
+			doc.Metadata = &sbom.Metadata{}
+		}
+		var dts []*sbom.DocumentType
+		for _, dt := range doc.Metadata.DocumentTypes {
+			if dt.Type != nil && (*dt.Type < 0 || *dt.Type > 8 || *dt.Type == sbom.DocumentType_RUNTIME) {
+				continue
+			}
+			if dt.Name == nil {
+				n := "custom"
+				dt.Name = &n
+			}
+			dts = append(dts, dt)
+		}
+		doc.Metadata.DocumentTypes = dts
+		if doc.NodeList == nil {
+			doc.NodeList = &sbom.NodeList{}
+		}
+		if len(doc.NodeList.Nodes) == 0 {
+			doc.NodeList.Nodes = []*sbom.Node{{Id: "a", Name: "root", Identifiers: map[int32]string{2: "cpe:/a:b", 3: "cpe:2.3:a:b", 1: "pkg:npm/a@1"}}}
+		}
+		ids := map[string]bool{}
+		for _, n := range doc.NodeList.Nodes {
+			ids[n.Id] = true
+		}
+		var es []*sbom.Edge
+		for _, e := range doc.NodeList.Edges {
+			if !ids[e.From] {
+				continue
+			}
+			var tos []string
+			for _, to := range e.To {
+				if ids[to] {
+					tos = append(tos, to)
+				}
+			}
+			e.To = tos
+			es = append(es, e)
+		}
+		doc.NodeList.Edges = es
+		doc.NodeList.RootElements = []string{doc.NodeList.Nodes[0].Id}
+	}
 	base, err := proto.Marshal(doc)
 	if err != nil {
 		base = nil
 	}
 	w := wildDoc{Base: base}
+	if rapid.Bool().Draw(t, label+".plain") {
+		return w
+	}
 	for i := rapid.IntRange(0, 3).Draw(t, label+".nops"); i > 0; i-- {
 		w.Ops = append(w.Ops, rapid.SampledFrom(wildOps).Draw(t, label+".op"))
 	}
